@@ -108,7 +108,13 @@ def run_case(case, ctx):
     jdef = {n: v for n, v in defaults.items() if n in inputs_t}
     mrows = model_join(inputs_t, on, jdef, kt)
     if mrows is not None:
-        stj, jres = ctx.call(join, dict(live), kw['on'], None, dict(jdef))
+        jarg = dict(jdef)
+        omitj = [q for q in jdef if isinstance(inputs_t.get(q), dict)]
+        if omitj and len(omitj) < len([q for q in inputs_t if isinstance(inputs_t[q], dict) and 'rows' in inputs_t[q]]):
+            # an earlier join with the same defaults dict that was not given the defaulted inputs must not change this one
+            ctx.call(join, {q: v for q, v in live.items() if q not in omitj}, kw['on'], None, jarg)
+            ctx.cls('warmup_join_omitting_defaulted_input')
+        stj, jres = ctx.call(join, dict(live), kw['on'], None, jarg)
         names = list(inputs_t)
         okj = stj == 'ok' and type(jres) is dictable and len(jres) == len(mrows)
         if okj and len(mrows):
@@ -138,6 +144,12 @@ def run_case(case, ctx):
             e = case['expiry_scalar'] if case.get('expiry_scalar') is not None else r['exp']
             prev_by_key[tuple(r[c] for c in prev['on'])] = (r['v'], e)
     p = perdictable(f, **kw)
+    if case.get('defaults') is not None:
+        # an earlier call on the same lifted function that leaves a defaulted input to f's own default must not change later calls
+        omit = [q for q in call_kw if q in case['defaults'] and q in case['fdefaults'] and isinstance(inputs_t.get(q), dict)]
+        if omit:
+            ctx.call(p, **{q: v for q, v in call_kw.items() if q not in omit})
+            ctx.cls('warmup_call_omitting_defaulted_input')
     del log[:]
     st, res = ctx.call(p, **call_kw)
     calls = list(log)
@@ -216,7 +228,7 @@ def gen_case(rng):
         col = rng.choice([p, 'data', 'val'])
         inputs[p] = {'on': t_on, 'col': col, 'rows': [dict(k, v='%s%s' % (p, ''.join(str(k[c]) for c in t_on))) for k in keys]}
         has_def = p in fdefaults
-        if explicit_defaults is not None and rng.random() < 0.4:
+        if explicit_defaults is not None and (rng.random() < 0.4 or (p in fdefaults and rng.random() < 0.7)):
             explicit_defaults[p] = 'D' + p
             has_def = True
         elif explicit_defaults is not None:
